@@ -386,6 +386,19 @@ static void run_huge2(const char *what, int thorough)
                                 out_count("gcm_calls", 1); out_count("gcm_update_calls", 3); out_count("gcm_huge_calls", 1);
                                 sha256_of(out, len, gh);
                                 if (memcmp(gh, eh, 32) || memcmp(tag, etag, 16)) { snprintf(key_, sizeof key_, "gcm-huge-update-mismatch %d %s", ks_bits2[ks], f->name); out_viol(g_prop, key_, rbuf, "updates of 1, 2^32 and 9 bytes: %s differs from OpenSSL", memcmp(gh, eh, 32) ? "ciphertext" : "tag"); }
+                                else {
+                                        /* the ciphertext just verified, decrypted in place: a carried partial block (5 bytes), one update of 3 GiB + 11 bytes, the rest */
+                                        uint64_t big = (3ull << 30) + 11;
+                                        LABEL("gcm%d %s stream decrypt updates 5 + (3 GiB + 11) + rest", ks_bits2[ks], f->name);
+                                        f->s.init[ks](&kd, &ctx, iv, aad, 20);
+                                        f->s.upd[ks][1][0](&kd, &ctx, out, out, 5); f->s.upd[ks][1][0](&kd, &ctx, out + 5, out + 5, big); f->s.upd[ks][1][0](&kd, &ctx, out + 5 + big, out + 5 + big, len - 5 - big);
+                                        memset(tag, 0, 16);
+                                        f->s.fin[ks][1](&kd, &ctx, tag, 16);
+                                        cur_label[0] = 0;
+                                        out_count("gcm_calls", 1); out_count("gcm_update_calls", 3); out_count("gcm_huge_calls", 1);
+                                        uint64_t d = 0; for (uint64_t o = 0; o < len && d == 0; o += 1u << 26) { uint64_t k = len - o > (1u << 26) ? (1u << 26) : len - o; if (memcmp(out + o, in + o, k)) { d = o; while (out[d] == in[d]) d++; d++; } }
+                                        if (d || memcmp(tag, etag, 16)) { snprintf(key_, sizeof key_, "gcm-huge-update-dec-mismatch %d %s", ks_bits2[ks], f->name); out_viol(g_prop, key_, rbuf, "decrypt updates of 5, 3 GiB + 11 and the rest: %s differs (first wrong byte %llu)", d ? "plaintext" : "tag", (unsigned long long) (d ? d - 1 : 0)); }
+                                }
                                 feat(mix64(0x4095f, (uint64_t) fi * 2 + (uint64_t) ks));
                                 char n[64]; snprintf(n, sizeof n, "cases_%s", f->name); out_count(n, 1);
                         }
